@@ -187,6 +187,18 @@ let () =
                  delivered := true;
                  if stamp < !round_start then begin clean := false; reset_rounds () end else served i j
                end)
+      | ["ev"; ("nack" | "ftimeout"); i; j; sq] ->
+          incr evc;
+          apply (PFetchFail (n_of_dec i, n_of_dec j, n_of_dec_raw sq)) false
+      | ["rft"; i; j; sq; again] ->
+          incr nchecks;
+          let i = n_of_dec i and j = n_of_dec j and sq = n_of_dec_raw sq in
+          (* a failed fetch for the neighbour's current sequence number must be expressed again *)
+          let current = (match getr !pm.base i with Some r -> List.exists (N.eqb j) r.nbrs | None -> false)
+                        && N.eqb (pget (i, j) !pm.nseq) sq && N.eqb (pget (i, j) !pm.fetching) sq in
+          if current && again <> "1" then
+            oracle "fetch_not_retried" (Printf.sprintf "router=%s neighbour=%s seq=%s: the failed advertisement fetch was not expressed again within 2.5 s although the sequence number is still the neighbour's latest"
+              (dec_of_n i) (dec_of_n j) (dec_of_n_raw sq))
       | ["ev"; "hold"; j] ->
           let j = n_of_dec j in
           incr evc;
